@@ -1,10 +1,28 @@
 (* C05 - ambiguity flag.  Derivations are the translations of the
    full-information grammar (every rule builds a node naming the rule and
    keeping all children), so counting them is counting translations. *)
-From YV Require Import Prelude EarleySpec Recognizer Translate Dag.
+From YV Require Import Prelude EarleySpec Recognizer Translate Dag FullInfo.
 
 Theorem C05_enumerator_exact : forall fuel g codes t_err start w L,
   all_translations fuel g codes t_err start w = Some L ->
   forall t, In t L <-> translation g codes t_err start w t.
 Proof. exact all_translations_spec. Qed.
 Print Assumptions C05_enumerator_exact.
+
+(* The derivation trees of an input are the translations of the full-information
+   variant of the grammar (every rule builds a node that names the rule and keeps
+   all children; [full] is extracted and used by the oracle).  Two different
+   translations of the input come from two different derivation trees - so "the
+   flag is set when there are two different translations" never contradicts "the
+   flag is set only if there are two derivations" - and every derivation tree is
+   translated to a translation. *)
+Theorem C05_two_translations_two_derivations : forall g codes t_err start w t1 t2,
+  translation g codes t_err start w t1 -> translation g codes t_err start w t2 -> t1 <> t2 ->
+  exists d1 d2, translation (full g) codes t_err start w d1 /\ translation (full g) codes t_err start w d2 /\ d1 <> d2.
+Proof. exact different_translations_different_derivations. Qed.
+Print Assumptions C05_two_translations_two_derivations.
+
+Theorem C05_derivation_trees_are_translated : forall g codes t_err start w d,
+  translation (full g) codes t_err start w d -> translation g codes t_err start w (proj g d).
+Proof. exact derivation_has_translation. Qed.
+Print Assumptions C05_derivation_trees_are_translated.
